@@ -619,10 +619,19 @@ def callHelper (env : Env) (h : Helper) (args : List Val) : Res :=
 
 /-! ## 7. The script language: decision trees over helper calls -/
 
+/-- a piece of a string a script builds at run time (`"10." + host.split(".")[1] + ".0.0/16"`) -/
+inductive Piece where
+  | lit (s : Bytes)
+  | url
+  | host
+  | label (i : Nat)                -- `host.split(".")[i]` (`undefined`, printed "undefined", past the last label)
+  deriving DecidableEq, Repr
+
 inductive Arg where
   | url
   | host
   | lit (v : Val)
+  | cat (ps : List Piece)          -- `"" + p₁ + p₂ + …`: an argument built afresh from the request on every call
   deriving DecidableEq, Repr
 
 structure Call where
@@ -647,10 +656,22 @@ inductive Tree where
   | ite (c : Cond) (t e : Tree)
   deriving Repr
 
+def Piece.val (url host : Bytes) : Piece → Bytes
+  | .lit s => s
+  | .url => url
+  | .host => host
+  | .label i => ((splitOn 46 host)[i]?).getD sUndefined
+
+/-- the string the concatenation yields -/
+def catVal (url host : Bytes) : List Piece → Bytes
+  | [] => []
+  | p :: ps => p.val url host ++ catVal url host ps
+
 def Arg.val (url host : Bytes) : Arg → Val
   | .url => .str url
   | .host => .str host
   | .lit v => v
+  | .cat ps => .str (catVal url host ps)
 
 /-- evaluation is parameterised by the helper semantics `hc` (the code's: `callHelper env`). -/
 def evalCall (hc : Helper → List Val → Res) (url host : Bytes) (c : Call) : Res :=
@@ -691,6 +712,26 @@ def evalTree (hc : Helper → List Val → Res) (url host : Bytes) : Tree → Re
     | .throw => .throw
     | .unmodelled => .unmodelled
 
+/-! ### Residual scripts: the request substituted into the dynamically built arguments -/
+
+def Arg.residual (url host : Bytes) (a : Arg) : Arg := .lit (a.val url host)
+
+def Call.residual (url host : Bytes) (c : Call) : Call := { c with args := c.args.map (Arg.residual url host) }
+
+def Cond.residual (url host : Bytes) : Cond → Cond
+  | .truthy c => .truthy (c.residual url host)
+  | .eq c v => .eq (c.residual url host) v
+  | .not c => .not (c.residual url host)
+
+def RetE.residual (url host : Bytes) : RetE → RetE
+  | .lit v => .lit v
+  | .call c => .call (c.residual url host)
+  | .strOf c => .strOf (c.residual url host)
+
+def Tree.residual (url host : Bytes) : Tree → Tree
+  | .ret e => .ret (e.residual url host)
+  | .ite c t e => .ite (c.residual url host) (t.residual url host) (e.residual url host)
+
 /-! ### Entry points and result checks (`pac.go`) -/
 
 inductive Entry where
@@ -699,10 +740,110 @@ inductive Entry where
   | fn (t : Tree)
   deriving Repr
 
+/-- where running a declaration leaves the name it declares (ECMAScript global environment record:
+    a declarative part for `let` / `const` / `class`, and the global object for everything else) -/
+inductive Binding where
+  | lexical                -- global lexical binding: script code sees it, the global object has no such property
+  | property               -- property of the global object
+  | none                   -- local to a block, a function or an eval: no global binding at all
+  deriving DecidableEq, Repr
+
+/-- the ways a script declares an entry point (`N` = the name, `F` = a function expression
+    `function (url, host) {…}`, `A` = an arrow function `(url, host) => {…}`) -/
+inductive DeclForm where
+  | funDecl                -- `function N(url, host) {…}`
+  | varFun                 -- `var N = F;`
+  | varNamedFun            -- `var N = function impl(url, host) {…};`
+  | varArrow               -- `var N = A;`
+  | assign                 -- `N = F;`            (undeclared name, sloppy mode)
+  | thisAssign             -- `this.N = F;`       (`this` = the global object at top level)
+  | defineProp             -- `Object.defineProperty(this, "N", {value: F, …});`
+  | blockVar               -- `{ var N = F; }`    (`var` is hoisted out of the block)
+  | blockAssign            -- `{ N = F; }`
+  | iifeAssign             -- `(function () { N = F; })();`
+  | iifeThis               -- `(function () { this.N = F; })();`   (plain call, sloppy mode: `this` = global object)
+  | iifeGlobalArg          -- `(function (g) { g.N = F; })(this);`
+  | evalVar                -- `eval("var N = F;");`               (direct eval at top level, sloppy mode)
+  | constFun               -- `const N = F;`
+  | letFun                 -- `let N = F;`
+  | constArrow             -- `const N = A;`
+  | letArrow               -- `let N = A;`
+  | letLater               -- `let N; N = F;`
+  | blockLet               -- `{ let N = F; }`
+  | blockConst             -- `{ const N = F; }`
+  | iifeLocalFun           -- `(function () { function N(url, host) {…} })();`
+  | iifeLocalVar           -- `(function () { var N = F; })();`
+  | evalLet                -- `eval("let N = F;");`               (eval code has a lexical environment of its own)
+  deriving DecidableEq, Repr
+
+def DeclForm.binding : DeclForm → Binding
+  | .funDecl | .varFun | .varNamedFun | .varArrow | .assign | .thisAssign | .defineProp | .blockVar
+  | .blockAssign | .iifeAssign | .iifeThis | .iifeGlobalArg | .evalVar => .property
+  | .constFun | .letFun | .constArrow | .letArrow | .letLater => .lexical
+  | .blockLet | .blockConst | .iifeLocalFun | .iifeLocalVar | .evalLet => .none
+
+/-- `definesGlobal form`: running a declaration of this form leaves a global binding of the name —
+    one that script code resolves by that name, wherever the engine keeps it. -/
+def definesGlobal (f : DeclForm) : Bool := f.binding != .none
+
+def DeclForm.all : List DeclForm :=
+  [.funDecl, .varFun, .varNamedFun, .varArrow, .assign, .thisAssign, .defineProp, .blockVar, .blockAssign,
+   .iifeAssign, .iifeThis, .iifeGlobalArg, .evalVar, .constFun, .letFun, .constArrow, .letArrow, .letLater,
+   .blockLet, .blockConst, .iifeLocalFun, .iifeLocalVar, .evalLet]
+
+/-- the two names `NewProxyResolver` looks for -/
+inductive EName where
+  | find                   -- `FindProxyForURL`
+  | findEx                 -- `FindProxyForURLEx`
+  deriving DecidableEq, Repr
+
 structure Script where
   fn : Entry               -- `FindProxyForURL`
   fnEx : Entry             -- `FindProxyForURLEx`
+  fnForm : DeclForm := .funDecl
+  fnExForm : DeclForm := .funDecl
   deriving Repr
+
+def Script.entry (s : Script) : EName → Entry
+  | .find => s.fn
+  | .findEx => s.fnEx
+
+def Script.form (s : Script) : EName → DeclForm
+  | .find => s.fnForm
+  | .findEx => s.fnExForm
+
+/-- what the script specifies under a name: the value its declaration gives the name if that
+    declaration defines a global, nothing otherwise -/
+def Script.global (s : Script) (n : EName) : Entry :=
+  if definesGlobal (s.form n) then s.entry n else .absent
+
+/-- the global scope of a VM after the script ran -/
+structure Scope where
+  lex : List (EName × Entry)           -- global lexical bindings
+  props : List (EName × Entry)         -- properties of the global object
+  deriving Repr
+
+def declare (sc : Scope) (b : Binding) (n : EName) : Entry → Scope
+  | .absent => sc
+  | e =>
+    match b with
+    | .lexical => { sc with lex := (n, e) :: sc.lex }
+    | .property => { sc with props := (n, e) :: sc.props }
+    | .none => sc
+
+def Script.scope (s : Script) : Scope :=
+  declare (declare ⟨[], []⟩ s.fnForm.binding .find s.fn) s.fnExForm.binding .findEx s.fnEx
+
+/-- `goja.Runtime.Get(name)`: the name as script code resolves it — a global lexical binding if
+    there is one, else the property of the global object -/
+def vmGet (sc : Scope) (n : EName) : Entry :=
+  match sc.lex.lookup n with
+  | some e => e
+  | none => (sc.props.lookup n).getD .absent
+
+/-- `Runtime.GlobalObject().Get(name)`: properties of the global object only (NOT what the code
+    uses; kept for `c14_entry_property_lookup_witness`) -/
+def objGet (sc : Scope) (n : EName) : Entry := (sc.props.lookup n).getD .absent
 
 inductive LoadErr where
   | missing | ambiguous
@@ -712,13 +853,17 @@ def Entry.tree? : Entry → Option Tree
   | .fn t => some t
   | _ => none
 
-/-- `NewProxyResolver`: exactly one of the two entry points must be a function -/
-def load (s : Script) : Except LoadErr Tree :=
-  match s.fnEx.tree?, s.fn.tree? with
+/-- `NewProxyResolver` with `get` as the lookup of `entryPoint()`: exactly one of the two names must
+    be a function -/
+def loadWith (get : Scope → EName → Entry) (s : Script) : Except LoadErr Tree :=
+  match (get s.scope .findEx).tree?, (get s.scope .find).tree? with
   | none, none => .error .missing
   | some _, some _ => .error .ambiguous
   | some t, none => .ok t
   | none, some t => .ok t
+
+/-- `NewProxyResolver`: `entryPoint()` uses `vm.Get` -/
+def load (s : Script) : Except LoadErr Tree := loadWith vmGet s
 
 inductive Answer where
   | ok (s : Bytes)
@@ -981,8 +1126,12 @@ inductive Stmt where
   | loop (i : Name) (n : Nat) (x : Name) (e : GExpr)   -- `for (gi = 0; gi < n; gi++) { gx = e; }`
   deriving Repr
 
+def Piece.usesReq : Piece → Bool
+  | .lit _ => false
+  | _ => true
+
 def Call.usesReq (c : Call) : Bool :=
-  c.args.any (fun a => match a with | .lit _ => false | _ => true)
+  c.args.any (fun a => match a with | .lit _ => false | .cat ps => ps.any Piece.usesReq | _ => true)
 
 /-- `ctx` = the parameters `(url, host)` in scope; `none` at top level, where naming them is a
     ReferenceError. -/
@@ -1164,6 +1313,37 @@ def srun (f : σ → ρ → α × σ) (s0 : σ) (req : Nat → ρ) (ops : List P
   ops.foldl (sstep f req) (SState.init s0)
 
 end Stateful
+
+/-! ## 11. Helpers keep no state: what earlier evaluations left behind cannot change a value
+
+  `callHelper env h args` has no state argument: in the model a helper is a function of its
+  arguments (and the injected resolver table).  The Go helpers are methods of one resolver, but
+  nothing stops them from keeping *process-wide* state that all pooled VMs share (a parse cache, a
+  DNS cache).  `HMemo` is such state in its most general admissible form: a table of the values of
+  earlier helper calls — anybody's — that is consulted before computing.  Steps are atomic here (a
+  cache behind a lock); an unsynchronised cache is a data race, which no interleaving of atomic
+  steps exhibits: that is left to the pool scenario of the harness. -/
+
+abbrev HKey := Helper × List Val
+abbrev HMemo := List (HKey × Res)
+
+def memoGet : HMemo → HKey → Option Res
+  | [], _ => none
+  | (k', v) :: rest, k => if k' = k then some v else memoGet rest k
+
+/-- a helper call that consults and fills the shared table -/
+def callHelperMemo (env : Env) (m : HMemo) (h : Helper) (args : List Val) : Res × HMemo :=
+  match memoGet m (h, args) with
+  | some v => (v, m)
+  | none => (callHelper env h args, ((h, args), callHelper env h args) :: m)
+
+/-- every entry is the value of the call it stands for -/
+def HMemo.sound (env : Env) (m : HMemo) : Prop :=
+  ∀ k v, memoGet m k = some v → callHelper env k.1 k.2 = v
+
+/-- the table after the calls `ks` (by any callers, in the order they happened) -/
+def memoAfter (env : Env) (ks : List HKey) : HMemo :=
+  ks.foldl (fun m k => (callHelperMemo env m k.1 k.2).2) []
 
 end C14
 end FwdVerif
